@@ -1588,7 +1588,15 @@ pub fn c11(rec: &mut Rec, rng: &mut Rng, thorough: bool) {
     for (k, lines, vlen) in [(40usize, 2usize, 8usize), (200, 1, 4), (150, 4, 200), (30, 20, 40)] {
         c11_many_rejections(rec, rng, k, lines, vlen);
     }
+    // … and counts at the boundaries of the small integer types a counter of rejections could have: the continuation
+    // follows the 127th … 129th, 255th … 257th, 511th … 513th rejection in a row
+    for k in [127usize, 128, 129, 254, 255, 256, 257, 258, 511, 512, 513] {
+        c11_many_rejections(rec, rng, k, 0, 0);
+    }
     if thorough {
+        for k in [32767usize, 32768, 65535, 65536, 65537] {
+            c11_many_rejections(rec, rng, k, 0, 0);
+        }
         for (k, lines, vlen) in [(1000usize, 3usize, 100usize), (70, 15, 60), (600, 0, 0)] {
             c11_many_rejections(rec, rng, k, lines, vlen);
         }
